@@ -1,10 +1,11 @@
 #!/bin/sh
 # Re-confirm every kept seeded change against /repo's current HEAD and re-run the check(s) that caught it.
-# usage: tools_seeded_all.sh [jobs]
+# usage: tools_seeded_all.sh [jobs] [seeds, comma separated]     (then: tools_seeded_report.py)
 J="${1:-4}"
+SEEDS="${2:-0}"
 cd /verif || exit 2
 ls -d seeded/*/ | sed 's#seeded/##; s#/##' | xargs -P "$J" -I{} sh -c '
   d={}; prop=${d%_*}; x=${d##*_}
   checks=$(/venv/bin/python -c "import json;m=json.load(open(\"seeded/$d/meta.json\"));print(\",\".join(m.get(\"caught_by\") or [m[\"property\"][:3]]))")
-  ./tools_seedtest.py seeded/$d $prop $x --checks $checks 2>&1 | cut -c1-260
+  ./tools_seedtest.py seeded/$d $prop $x --checks $checks --seeds '"$SEEDS"' 2>&1 | cut -c1-260
 '
